@@ -6,6 +6,7 @@ package harness
 // position on a fresh copy with a failure injected there.
 
 import (
+	"encoding/json"
 	"bytes"
 	"context"
 	"errors"
@@ -63,6 +64,7 @@ type c13State struct {
 	rows  map[int]int
 	bytes map[int][]byte
 	files map[string][]byte
+	meta  map[string]string // pointer -> JSON of the block metadata the MetaStore serves for it
 }
 
 func snapshotState(ds *MemDataStore, ms bs.MetaStore) (*c13State, error) {
@@ -70,9 +72,12 @@ func snapshotState(ds *MemDataStore, ms bs.MetaStore) (*c13State, error) {
 	if err != nil {
 		return nil, err
 	}
-	st := &c13State{rows: map[int]int{}, bytes: map[int][]byte{}, files: ds.Files()}
+	st := &c13State{rows: map[int]int{}, bytes: map[int][]byte{}, files: ds.Files(), meta: map[string]string{}}
 	for _, f := range files {
 		st.ptrs = append(st.ptrs, f.Ptr)
+		if mb, err := json.Marshal(f.Meta.DataBlocks); err == nil {
+			st.meta[f.Ptr] = string(mb)
+		}
 		for _, b := range f.Blocks {
 			for i, id := range b.IDs {
 				st.rows[id]++
@@ -217,6 +222,9 @@ func judgeC13(before *c13State, base *c13Run, r *c13Run, plan map[int]string) *V
 			got, ok := r.ds.Get(p)
 			if !ok || !bytes.Equal(got, before.files[p]) {
 				return violf("Merge did not commit but source file %s is gone or changed (%s)", p, desc)
+			}
+			if before.meta[p] != r.after.meta[p] {
+				return violf("Merge did not commit but the block metadata the MetaStore serves for file %s changed (queries prune by it):\nbefore %s\nafter  %s\n(%s)", p, shortJSON(before.meta[p], 700), shortJSON(r.after.meta[p], 700), desc)
 			}
 		}
 		for _, c := range r.log {
@@ -503,7 +511,7 @@ func runC13(c c13Case) *Violation {
 
 func TestC13(t *testing.T) {
 	Ev.Level = "fault_enumeration"
-	Ev.Rule = "case = generated population (several engine configurations, partitions, optionally external-writer files) in a cloneable in-memory DataStore + MemoryMetaStore (in a third of the cases the Merge runs against a MetaStore that is the DataStore itself: every complete file the store holds is referenced, published at Close — the in-memory counterpart of the filesystem store used as MetaStore), and a merge configuration. Merge is run fault-free on a copy to number every store call (iterator start/yield, CreateFile, OpenFile, Read, Seek, Write, Close, Abort, Update, TombstoneFile); then ONCE PER POSITION on a fresh copy with a failure there (before the call; Write also short-write; Close also publish-then-fail). Oracle per run: row multiset and bytes preserved; if MetaStore.Update did not succeed: same pointers, source files byte-identical, no source tombstoned, no ErrPostCommitCleanup, and nil is not returned when the fault-free run merges; if it succeeded: pointers = before - deletes + writes, every committed output's Close succeeded before the Update, no Write to it had failed and its own footer parses, sources tombstoned only after it, error is nil or wraps ErrPostCommitCleanup (with stats) exactly when a source tombstone failed. Plus per population: three further Merge calls made one after the other while the first is gated inside CreateFile all return ErrMergeInProgress. Non-trivial: the fault fired in the second or a later group, or after the Update; distinct by hash(case, plan)."
+	Ev.Rule = "case = generated population (several engine configurations, partitions, optionally external-writer files) in a cloneable in-memory DataStore + MemoryMetaStore (in a third of the cases the Merge runs against a MetaStore that is the DataStore itself: every complete file the store holds is referenced, published at Close — the in-memory counterpart of the filesystem store used as MetaStore), and a merge configuration. Merge is run fault-free on a copy to number every store call (iterator start/yield, CreateFile, OpenFile, Read, Seek, Write, Close, Abort, Update, TombstoneFile); then ONCE PER POSITION on a fresh copy with a failure there (before the call; Write also short-write; Close also publish-then-fail). Oracle per run: row multiset and bytes preserved; if MetaStore.Update did not succeed: same pointers, source files byte-identical, the block metadata the MetaStore serves for every file unchanged, no source tombstoned, no ErrPostCommitCleanup, and nil is not returned when the fault-free run merges; if it succeeded: pointers = before - deletes + writes, every committed output's Close succeeded before the Update, no Write to it had failed and its own footer parses, sources tombstoned only after it, error is nil or wraps ErrPostCommitCleanup (with stats) exactly when a source tombstone failed. Plus per population: three further Merge calls made one after the other while the first is gated inside CreateFile all return ErrMergeInProgress. Non-trivial: the fault fired in the second or a later group, or after the Update; distinct by hash(case, plan)."
 	Ev.Assumptions = []string{"MemoryMetaStore.Update is atomic", "faults are one-shot"}
 	runChecks(t, "faults", 12, 3000, genC13(), runC13)
 }
